@@ -390,6 +390,7 @@ theorem inv_step (s : Sys) (h : Inv s) (op : Op) (hh : op = .stop → s.healthy 
   | rbdone i => exact inv_rbdone s h i
   | remove i => exact inv_remove s h i
   | snap => exact inv_snap s h
+  | regq => exact h
   | stop => exact inv_stop s h (hh rfl)
 
 theorem inv_run (ops : List Op) : ∀ (s : Sys), Inv s → s.healthyRun ops = true → Inv (s.run ops) := by
@@ -410,6 +411,7 @@ theorem inv_run (ops : List Op) : ∀ (s : Sys), Inv s → s.healthyRun ops = tr
     | rbdone i => exact ih _ (inv_step s h _ (fun hc => by cases hc)) hh
     | remove i => exact ih _ (inv_step s h _ (fun hc => by cases hc)) hh
     | snap => exact ih _ (inv_step s h _ (fun hc => by cases hc)) hh
+    | regq => exact ih _ (inv_step s h _ (fun hc => by cases hc)) hh
 
 /-- **C09 (a volume whose replicas all stopped and came back serves every acknowledged write
     again).**  `rf` configured replicas (any `rf ≥ 1`; `n` directories with `rf / 2 + 1 ≤ n ≤ rf`), ANY
